@@ -54,7 +54,8 @@ def dumpPacket (p : Packet) : String :=
 def showBytes (r : Res Bytes) : String :=
   match r with
   | .ok b => "ok " ++ valToken b
-  | .err e => "err " ++ e.name
+  | .err .invalidPacketLength => "err InvalidPacketLength"
+  | .err _ => "err Other"
   | .panic => "panic"
 
 /-- parse `<vtt> <code> <mid> <tok> <n> (<num> <val>)*n <payload>` and build the
@@ -123,9 +124,9 @@ def pkt (ws : List String) : String :=
       | .ok b =>
         match dec b with
         | .ok q => "ok " ++ dumpPacket q
-        | .err e => "decerr " ++ e.name
+        | .err _ => "decerr"
         | .panic => "panic"
-      | .err e => "err " ++ e.name
+      | .err _ => "err"
       | .panic => "panic"
     | _ => "panic"
   | ["dec", h] =>
